@@ -161,30 +161,61 @@ def sel_text(s):
     return "a,, $" if s == "#bad" else s
 
 
-def proj_list(sl):
-    return [s.selectorText for s in sl]
+NS = {"p": "u"}
 
 
-def project_list(sl):
-    out, rep = outcome(lambda: proj_list(css.SelectorList(selectorText=sl.selectorText)) if sl.length else [])
-    return {"list": proj_list(sl), "length": sl.length, "reparsed": rep if out == "ok" else ["#" + out], "text": sl.selectorText}
+def ns_text(s, prefix):
+    """the selector with every type name written with a namespace prefix: 'b > c' -> 'p|b > p|c'"""
+    return " ".join(prefix + "|" + w if w.isalpha() else w for w in s.split(" "))
+
+
+def proj_list(sl, foreign=False):
+    # foreign variant: every name is written with the list's own prefix for the namespace; any other prefix stays visible
+    return [s.selectorText.replace("p|", "") if foreign else s.selectorText for s in sl]
+
+
+def project_list(sl, foreign=False):
+    def rep():
+        if not sl.length:
+            return []
+        return proj_list(css.SelectorList(selectorText=(sl.selectorText, NS) if foreign else sl.selectorText), foreign)
+    out, r = outcome(rep)
+    o = {"list": proj_list(sl, foreign), "length": sl.length, "reparsed": r if out == "ok" else ["#" + out], "text": sl.selectorText}
+    if foreign and any(x.parent is not sl for x in sl):
+        o["reparsed"] = ["#member names another list as parent"]
+    return o
 
 
 def run_list_trace(item):
     init()
-    sl = css.SelectorList()
-    tr = {"id": item["id"], "init": project_list(sl), "steps": []}
+    foreign = bool(item.get("foreign"))
+    if foreign:
+        # the list belongs to a sheet that binds prefix p; members arrive as Selector OBJECTS taken from a second sheet that
+        # binds the same namespace to prefix x (same denotation, other spelling, already owned by another list)
+        sheet = cssutils.parseString('@namespace p "u"; p|zz { left: 0 }')
+        sl = css.SelectorList(parentRule=sheet.cssRules[1])
+    else:
+        sl = css.SelectorList()
+
+    def member(s):
+        if s == "#bad":
+            return BAD_MEMBERS[item["id"] % len(BAD_MEMBERS)]
+        if not foreign:
+            return s
+        donor = cssutils.parseString('@namespace x "u"; %s { left: 0 }' % ns_text(s, "x"))
+        return donor.cssRules[1].selectorList[0]
+    tr = {"id": item["id"], "init": project_list(sl, foreign), "steps": []}
     for a in item["actions"]:
         cssutils.log.raiseExceptions = a["mode"] == "raise"
         bad = BAD_MEMBERS[item["id"] % len(BAD_MEMBERS)]
         if a["op"] == "append":
-            out, _ = outcome(lambda: sl.appendSelector(bad if a["s"] == "#bad" else a["s"]))
+            out, _ = outcome(lambda: sl.appendSelector(member(a["s"])))
         elif a["op"] == "setitem":
             # the place named from the front or (every second time) from the end
             idx = a["i"] - 1 if (item["id"] + a["i"]) % 2 else a["i"] - 1 - sl.length
-            out, _ = outcome(lambda: sl.__setitem__(idx, bad if a["s"] == "#bad" else a["s"]))
+            out, _ = outcome(lambda: sl.__setitem__(idx, member(a["s"])))
         else:
-            out, _ = outcome(lambda: setattr(sl, "selectorText", ", ".join(bad if s == "#bad" else s for s in a["ss"])))
+            out, _ = outcome(lambda: setattr(sl, "selectorText", ", ".join(bad if s == "#bad" else (ns_text(s, "p") if foreign else s) for s in a["ss"])))
         cssutils.log.raiseExceptions = True
-        tr["steps"].append({"a": a, "out": out, "post": project_list(sl)})
+        tr["steps"].append({"a": a, "out": out, "post": project_list(sl, foreign)})
     return tr
